@@ -120,19 +120,44 @@ func (e *Exec) loadLoc(st *State, l Loc) Value {
 		}
 		return v
 	case *HeapLoc:
-		return buildValue(x.Typ, "", func(path string, srt *Sort, typ types.Type) *Term {
+		v := buildValue(x.Typ, "", func(path string, srt *Sort, typ types.Type) *Term {
 			t := mkSelect(st.heapMap(x.Fam+x.Path+path, srt), x.Ref)
 			e.noteLoaded(st, t, typ, path)
 			return t
 		})
+		e.noteShape(st, v)
+		return v
 	case *MemLoc:
-		return buildValue(x.Typ, "", func(path string, srt *Sort, typ types.Type) *Term {
+		v := buildValue(x.Typ, "", func(path string, srt *Sort, typ types.Type) *Term {
 			t := mkSelect(mkSelect(st.memMap(x.Fam+x.Path+path, srt), x.Arr), x.Idx)
 			e.noteLoaded(st, t, typ, path)
 			return t
 		})
+		e.noteShape(st, v)
+		return v
 	}
 	panic("loadLoc")
+}
+
+// noteShape adds the representation invariant of slice headers read from heap/memory.
+func (e *Exec) noteShape(st *State, v Value) {
+	if st.quiet > 0 {
+		return
+	}
+	switch x := v.(type) {
+	case SliceVal:
+		st.assume(mkGe(x.Off, tZero))
+		st.assume(mkGe(x.Len, tZero))
+		st.assume(mkLe(x.Len, x.Cap))
+		st.assume(mkImplies(mkEq(x.Arr, tZero), mkEq(x.Cap, tZero)))
+		st.assume(mkLe(mkAdd(x.Off, x.Cap), mkInt64(1<<50)))
+	case StructVal:
+		for _, f := range x.Fields {
+			e.noteShape(st, f)
+		}
+	case ArrayVal:
+		st.assume(mkGt(x.Arr, tZero))
+	}
 }
 
 // noteLoaded adds the type invariant of a value read from heap/memory to the path condition.
